@@ -98,9 +98,15 @@ func extractContrib(c *Ctx, fname string, withPoly bool) *contribTable {
 						ex := &explorer{c: c, f: f, atoms: atoms}
 						outs := ex.explore(nil)
 						if len(outs) != 1 || len(outs[0].conds) != 0 || outs[0].end != "return" || len(outs[0].ret) != 1 || outs[0].ret[0].abs.k != aBool {
-							why := "more than one path"
-							if len(outs) >= 1 && len(outs[0].conds) > 0 {
-								why = "branches on a non-atom: " + outs[0].condString()
+							why := fmt.Sprintf("%d paths", len(outs))
+							for _, o := range outs {
+								if len(o.conds) > 0 {
+									why = "branches on a non-atom: " + o.condString()
+									break
+								}
+							}
+							if len(outs) == 1 && len(outs[0].conds) == 0 {
+								why = fmt.Sprintf("ends with %s returning %v", outs[0].end, outs[0].ret)
 							}
 							fatalf("%s: cell %+v is undecided (%s) — the function uses its inputs outside the admissible class (comparisons with constants, -, abs)", fname, cell, why)
 						}
